@@ -264,7 +264,8 @@ def run(ctx):
         "ReadBackend::read_partial returns exactly the requested range or an error",
         "checked u32 arithmetic = build with overflow checks (the harness and `cargo test` profile); a release build wraps instead of panicking",
         "ids are 32 bytes; IndexBlob.uncompressed_length is NonZeroU32 (never Some 0)",
-        "SHA-256 naming of packs and the writer thread (Actor) are observed end to end, not modelled",
+        "the writer thread (Actor) is modelled as a FIFO with at most one failing upload; SHA-256 naming is observed end to end",
+        "the packer's age limit (MAX_AGE = 5 min) is an oracle of the model and is not reached by any check run",
         "delete-marks (packs_to_delete) and pack times are not recoverable from packs and are outside rebuild_index_equals_index",
         "written_repo_index_rebuildable assumes that the hash (SHA-256) does not collide on the written pack files",
         "the repacker theorems hold for every order of the blob list; sort_unstable and the parallel iteration over chunks are exercised by the correspondence only"]
